@@ -50,12 +50,18 @@ def tag_shapes(rng, quick):
         'list': lambda t: {'l': tlist([lit('z'), tmap({'x': t})])},
         'map': lambda t: {'m': tmap({'inner': tmap({'x': t})})},
         'pair': lambda t: {'x': t, 'y': opt('steps.b.outputs.success', True)},
+        # tagged fields with siblings (another optional, a plain reference, a literal) several maps deep: each field's
+        # dependency group is its own, wherever it sits and whatever is prepared next to it
+        'deep3': lambda t: {'d1': tmap({'d2': tmap({'x': t, 'y': opt('steps.b.outputs.success', True), 'k': lit('z'), 'r': ref('steps.a.starting.started')})})},
+        'deep4': lambda t: {'d1': tmap({'d2': tmap({'d3': tmap({'x': t, 'y': opt('steps.b.outputs.success', True), 'k': lit('z'), 'r': ref('steps.a.starting.started')})})})},
+        'deep5': lambda t: {'d1': tmap({'d2': tmap({'d3': tmap({'d4': tmap({'x': t, 'y': opt('steps.b.outputs.success', True), 'k': lit('z')})})})})},
     }
     outcomes = [('success', 'success'), ('error', 'success'), ('success', 'error'), ('alt', 'success'), ('disabled', 'success'), ('success', 'deployfail')]
     combos = list(itertools.product(tags, placements, outcomes))
     if quick:
         rng.shuffle(combos)
-        combos = combos[:40] + [c for c in combos[40:] if c[0] == 'oneof-with-soft' and c[2] == ('success', 'success')][:2]
+        deep = [c for c in combos[40:] if c[1].startswith('deep') and c[0] in ('wait1', 'soft1', 'wait2') and c[2] in (('success', 'error'), ('error', 'success'))]
+        combos = combos[:40] + [c for c in combos[40:] if c[0] == 'oneof-with-soft' and c[2] == ('success', 'success')][:2] + deep[:6]
     for tg, pl, (oa, ob) in combos:
         def mk_oc(o):
             if o == 'disabled':
@@ -77,7 +83,9 @@ def tag_shapes(rng, quick):
         if tg == 'oneof-with-soft':
             script['b']['exec']['delay_ms'] = 80      # the soft source is slow: nobody may wait for it
         items.append({'wf': wf, 'oc': oc, 'script': script, 'input': {'x': 'x', 'n': 1, 'flag': True},
-                      'schedule': gen.noise_schedule(rng, max_us=300), 'at': '%s/%s a=%s b=%s' % (tg, pl, oa, ob)})
+                      'schedule': gen.noise_schedule(rng, max_us=300), 'at': '%s/%s a=%s b=%s' % (tg, pl, oa, ob),
+                      # the product contains placements the engine legitimately refuses (a tagged value inside a list)
+                      'may_be_rejected': True})
     return items
 
 
